@@ -122,7 +122,7 @@ func init() { Register(propC10{}) }
 func (propC10) ID() string    { return "C10" }
 func (propC10) Level() string { return "fault_enumeration" }
 func (propC10) Rule() string {
-	return "cases: a Set/SetReader/Create of length L (L from {1, 100, 2047..2049, 32767..32769, 65537, seeded <= 150 KiB}) on a key with or without a previous value, 1-3 roots; fault kinds enumerated by run index: ENOSPC with the failing roots' real room at each of {0, 1, chunk-1, chunk, chunk+1, L-1} and seeded positions (chunk = 32 KiB copy buffer), all-or-nothing and after a partial write, on every non-empty subset of roots, honest and over-reporting disks; source reader failing at each of those offsets (5 read shapes; a plain error, an error wrapping io.EOF, io.ErrUnexpectedEOF, the error returned together with the last bytes); context cancelled at a source offset; through the inline client and the external client over the simulated gRPC transport (there also: link cut after the k-th message in either direction, server-side rejection, and fault-free uploads through the generated stub in shapes a foreign client may use: chunks of any size, a chunk without bytes, a message with nothing set or the header again somewhere in the stream); fault-free control runs; oracle: (a) nil => Get returns the source bytes exactly, (b) error => right class and the key still reads its previous value / not found, (c) a root that really has room and reported more free space (and > 0) than every root that has not => nil; distinct = hash(case); non-trivial = the injected fault actually fired before the last byte was stored"
+	return "cases: a Set/SetReader/Create of length L (L from {1, 100, 2047..2049, 32767..32769, 65537, seeded <= 150 KiB}) on a key with or without a previous value, 1-3 roots; fault kinds enumerated by run index: ENOSPC with the failing roots' real room at each of {0, 1, chunk-1, chunk, chunk+1, L-1} and seeded positions (chunk = 32 KiB copy buffer), all-or-nothing and after a partial write, on every non-empty subset of roots, honest and over-reporting disks; a file write failing with EIO at those positions (nothing to continue elsewhere with); source reader failing at each of those offsets (5 read shapes; a plain error, an error wrapping io.EOF, io.ErrUnexpectedEOF, the error returned together with the last bytes); context cancelled at a source offset; through the inline client and the external client over the simulated gRPC transport (there also: link cut after the k-th message in either direction, server-side rejection, and fault-free uploads through the generated stub in shapes a foreign client may use: chunks of any size, a chunk without bytes, a message with nothing set or the header again somewhere in the stream); fault-free control runs; oracle: (a) nil => Get returns the source bytes exactly, (b) error => right class and the key still reads its previous value / not found, (c) a root that really has room and reported more free space (and > 0) than every root that has not => nil; distinct = hash(case); non-trivial = the injected fault actually fired before the last byte was stored"
 }
 func (propC10) Assumptions() []string {
 	return []string{
@@ -180,6 +180,15 @@ func (propC10) Gen(r *simrt.Rand, idx int, tier string) any {
 		kinds = []string{"enospc", "reader", "cancel", "cut", "cut", "reject", "none"}
 	}
 	c.Kind = kinds[idx%7]
+	if c.Kind == "enospc" && (idx/7)%4 == 3 {
+		// a write error that is not "no space" (EIO) after p bytes of the content: there is nothing to
+		// continue elsewhere with - the write fails, or, if it does report success, is complete
+		c.Kind = "eio"
+		c.FailAt = p
+		for len(c.World.Roots) < 2 {
+			c.World.Roots = append(c.World.Roots, RootSpec{})
+		}
+	}
 	switch c.Kind {
 	case "enospc":
 		n := len(c.World.Roots)
@@ -368,6 +377,9 @@ func (propC10) Exec(x any, choices []int32) RunOut {
 				src = &failingReader{b: content, failAt: c.FailAt, fired: &fired, cancel: cancel, chunk: 1500}
 			}
 			wantClass = "cancel"
+		case "eio":
+			w.Disk.EIOAfter, w.Disk.EIOArmed = int64(c.FailAt), true
+			wantClass = "any"
 		case "cut":
 			link.cutAfter(c.CutDir, c.FailAt, &fired)
 			wantClass = "any"
@@ -418,6 +430,13 @@ func (propC10) Exec(x any, choices []int32) RunOut {
 		}
 		if link != nil {
 			link.heal()
+		}
+		if w.Disk != nil && w.Disk.Stats.EIO > 0 {
+			fired = true
+			faults["eio-on-content-write"] += w.Disk.Stats.EIO
+		}
+		if w.Disk != nil {
+			w.Disk.EIOArmed = false
 		}
 		if w.Disk != nil && w.Disk.Stats.ENOSPC > 0 {
 			fired = true
